@@ -75,3 +75,30 @@ func HarnessTimeParsePrint() {
 			zzvrt.Dev{Name: "time-fractional-seconds-dropped", Cond: len(in) > 10})
 	}
 }
+
+// HarnessDateAllOrNothing / HarnessTimeAllOrNothing (C19): UnmarshalJSON on L symbolic bytes with
+// an arbitrary PRIOR value in the receiver: when it returns an error the receiver still holds
+// the prior value.
+func HarnessDateAllOrNothing() {
+	n := zzvrt.Choice(zzvrt.Param("L", 14))
+	in := zzvrt.SymBytes(n)
+	prior := zzvrt.SymDate()
+	d := SerializableDate{prior}
+	err := d.UnmarshalJSON(in)
+	zzvrt.Cover("date:all-or-nothing")
+	if err != nil {
+		zzvrt.Check("C19.types.date-receiver-unchanged-on-error", zzvrt.SameInstant(d.Time, prior))
+	}
+}
+
+func HarnessTimeAllOrNothing() {
+	n := zzvrt.Choice(zzvrt.Param("L", 14))
+	in := zzvrt.SymBytes(n)
+	prior := zzvrt.SymClock()
+	t := SerializableTime{prior}
+	err := t.UnmarshalJSON(in)
+	zzvrt.Cover("time:all-or-nothing")
+	if err != nil {
+		zzvrt.Check("C19.types.time-receiver-unchanged-on-error", zzvrt.SameInstant(t.Time, prior))
+	}
+}
